@@ -20,6 +20,7 @@ type vSummary struct {
 	in, out  []expr.Key
 	load     bool
 	store    bool
+	shape    int // further memory access shapes, see vAccess
 	typ      model.Type
 	jumps    bool
 	length   int
@@ -55,11 +56,18 @@ func vSymSummary(full bool) vSummary {
 			s.out = []expr.Key{"b"}
 		}
 	}
-	switch sym.Choose(3) {
+	nshapes := 6
+	if full {
+		nshapes = 9
+	}
+	switch c := sym.Choose(nshapes); c {
+	case 0:
 	case 1:
 		s.load = true
 	case 2:
 		s.store = true
+	default:
+		s.shape = c - 2
 	}
 	switch sym.Choose(4) {
 	case 1:
@@ -90,11 +98,14 @@ func vMkInstr(s vSummary, addr model.Addr, tag int) *instruction {
 	for _, k := range s.out {
 		ins.outRegs[k] = struct{}{}
 	}
-	if s.load {
-		ins.loads = []expr.MemLoad{expr.NewMemLoad("m", expr.Zero, 1)}
-	}
-	if s.store {
-		ins.stores = []expr.MemStore{expr.NewMemStore(expr.Zero, "m", expr.Zero, 1)}
+	for _, k := range []expr.Key{"m", "n"} {
+		r, w := vAccess(s, k)
+		for i := 0; i < r; i++ {
+			ins.loads = append(ins.loads, expr.NewMemLoad(k, expr.Zero, 1))
+		}
+		for i := 0; i < w; i++ {
+			ins.stores = append(ins.stores, expr.NewMemStore(expr.Zero, k, expr.Zero, 1))
+		}
 	}
 	if s.jumps {
 		ins.jumpTargets = []expr.Expr{expr.NewRegLoad("t", 8)}
@@ -121,7 +132,58 @@ func vShareReg(a, b vSummary) bool {
 	return false
 }
 
-func vMemAccess(s vSummary) bool { return s.load || s.store }
+// vAccess: number of loads and stores of the summary in memory space k.
+// shapes: 1 two stores to m, 2 load and store of m, 3 store to m and to n,
+// 4 two loads of m, 5 load of n, 6 store to n.
+func vAccess(s vSummary, k expr.Key) (loads, stores int) {
+	if k == "m" {
+		if s.load {
+			loads++
+		}
+		if s.store {
+			stores++
+		}
+		switch s.shape {
+		case 1:
+			stores += 2
+		case 2:
+			loads, stores = loads+1, stores+1
+		case 3:
+			stores++
+		case 4:
+			loads += 2
+		}
+		return
+	}
+	switch s.shape {
+	case 3, 6:
+		stores++
+	case 5:
+		loads++
+	}
+	return
+}
+
+func vMemAccess(s vSummary) bool {
+	for _, k := range []expr.Key{"m", "n"} {
+		if r, w := vAccess(s, k); r+w > 0 {
+			return true
+		}
+	}
+	return false
+}
+
+// vMemConflict: both access one memory space and at least one of them writes it.
+func vMemConflict(a, b vSummary) bool {
+	for _, k := range []expr.Key{"m", "n"} {
+		ar, aw := vAccess(a, k)
+		br, bw := vAccess(b, k)
+		if ar+aw > 0 && br+bw > 0 && aw+bw > 0 {
+			return true
+		}
+	}
+	return false
+}
 func vSpecial(s vSummary) bool   { return s.typ.Syscall() || s.typ.CPUStateChange() }
 
 // vIndependent is the antecedent of C06 for adjacent instructions a (earlier), b (later).
@@ -129,7 +191,7 @@ func vIndependent(a, b vSummary, bIsTerminatingJump bool) bool {
 	if vShareReg(a, b) {
 		return false
 	}
-	if vMemAccess(a) && vMemAccess(b) && (a.store || b.store) {
+	if vMemConflict(a, b) {
 		return false
 	}
 	if vSpecial(a) || vSpecial(b) {
